@@ -224,6 +224,18 @@ func (p *c05Proc) Census() (c05Ans, error) {
 	return p.read(15 * time.Second)
 }
 
+func (p *c05Proc) Rebase() (c05Ans, error) {
+	p.nextID++
+	if err := p.send(c05Cmd{Cmd: "rebase", ID: p.nextID}); err != nil {
+		return c05Ans{}, err
+	}
+	a, err := p.read(15 * time.Second)
+	if err == nil {
+		p.Baseline = a.Baseline
+	}
+	return a, err
+}
+
 func (p *c05Proc) Blocks() (c05Ans, error) {
 	p.nextID++
 	if err := p.send(c05Cmd{Cmd: "blocks", ID: p.nextID}); err != nil {
